@@ -93,6 +93,20 @@ fn has_delimiter_in_item(ds: &MDs) -> bool {
     })
 }
 
+/// hypotheses of C24_conforms (mirrors Json.conf_dset): well-formed, person names with at most three
+/// component groups, UL values held as 64-bit integers are below 2^31
+pub fn conf_ds(ds: &MDs) -> bool {
+    ds.0.iter().all(|(_, vr, v)| match v {
+        MValue::Prim(p) => wf_prim(*vr, p) && (p.multiplicity() == 0 || match (vr, p) {
+            (VR::PN, _) => p.real().to_multi_str().iter().all(|s| s.matches('=').count() <= 2),
+            (VR::UL, MPrim::Int(IK::I64 | IK::U64, l)) => l.iter().all(|z| i32::MIN as i128 <= *z && *z <= i32::MAX as i128),
+            _ => true,
+        }),
+        MValue::Seq(items) => *vr == VR::SQ && items.iter().all(conf_ds),
+        MValue::Pix => false,
+    })
+}
+
 // ---------------------------------------------------------------- direct oracle of C23: equal up to the documented normalisations
 fn feq(a: f64, b: f64) -> bool { (a.is_nan() && b.is_nan()) || a.to_bits() == b.to_bits() }
 fn prim_empty(vr: VR, p: &PrimitiveValue) -> bool { p.multiplicity() == 0 || (is_bin_vr(vr) && p.to_bytes().is_empty()) }
@@ -214,6 +228,7 @@ fn binary_le(ds: &MDs, out: &J) -> Result<(), String> {
 fn case_rt(prop: Prop, ds: &MDs, bucket: &str) -> Case {
     let obj = ds.real();
     let wf = wf_ds(ds);
+    let conf = conf_ds(ds);
     let out = catch(|| dicom_json::to_value(&obj));
     let mut ext = Ext::new();
     ext.add_ds(ds);
@@ -254,7 +269,7 @@ fn case_rt(prop: Prop, ds: &MDs, bucket: &str) -> Case {
             },
             _ => Oracle::NotApplicable,
         },
-        Prop::C24 => if !wf { Oracle::NotApplicable } else {
+        Prop::C24 => if !conf { Oracle::NotApplicable } else {
             match (&jout, &verdict) {
                 (None, _) => Oracle::Fails { class: "SerPanic".into(), detail: "to_value failed on a well-formed data set".into() },
                 (Some(_), Err(c)) => Oracle::Fails { class: format!("AnnexF:{}", c), detail: c.to_string() },
@@ -262,11 +277,11 @@ fn case_rt(prop: Prop, ds: &MDs, bucket: &str) -> Case {
             }
         },
     };
-    let coq = format!("(CaseRT {} {} {} {} {} {})", ext.coq(), ds.coq(), c_out, c_back, c_bool(verdict.is_ok()), c_bool(wf));
+    let coq = format!("(CaseRT {} {} {} {} {} {} {})", ext.coq(), ds.coq(), c_out, c_back, c_bool(verdict.is_ok()), c_bool(wf), c_bool(conf));
     let nontrivial = !ds.0.is_empty();
     Case {
         coq,
-        desc: json!({"bucket": bucket, "dataset": ds.desc(), "to_value": d_out, "from_value": d_back, "annexf": verdict.err(), "wf": wf}),
+        desc: json!({"bucket": bucket, "dataset": ds.desc(), "to_value": d_out, "from_value": d_back, "annexf": verdict.err(), "wf": wf, "conf": conf}),
         key: if nontrivial { format!("rt|{}", ds.coq()) } else { String::new() },
         oracle,
     }
@@ -348,15 +363,16 @@ pub fn cases(ctx: &Ctx, prop: Prop) -> Vec<Case> {
     for (d, b) in &cds { out.push(case_rt(prop, d, b)); }
     for (j, b) in &cdocs { out.push(case_de(prop, j, b)); }
     let mut i = 0usize;
+    let mut vr_turn = 0usize;
     while out.len() < ctx.n {
         i += 1;
         match i % 10 {
             // well-formed data sets: the round trip and conformance theorems apply
-            0..=3 => { let d = rand_ds(&mut r, 2, true, 5); out.push(case_rt(prop, &d, if d.0.iter().any(|e| matches!(e.2, MValue::Seq(_))) { "rt:wf-nested" } else { "rt:wf-flat" })); }
+            0..=2 => { let d = rand_ds(&mut r, 2, true, 5); out.push(case_rt(prop, &d, if d.0.iter().any(|e| matches!(e.2, MValue::Seq(_))) { "rt:wf-nested" } else { "rt:wf-flat" })); }
             // any VR with any kind of value (serialiser panics, type errors on the way back)
-            4 => { let d = rand_ds(&mut r, 2, false, 4); out.push(case_rt(prop, &d, "rt:any-kind")); }
+            3 => { let d = rand_ds(&mut r, 2, false, 4); out.push(case_rt(prop, &d, "rt:any-kind")); }
             // mutated serialiser output
-            5 | 6 => {
+            4 => {
                 let d = rand_ds(&mut r, 2, true, 4);
                 if let Some(Ok(v)) = catch(|| dicom_json::to_value(&d.real())) {
                     let mut j = from_value(&v);
@@ -365,12 +381,13 @@ pub fn cases(ctx: &Ctx, prop: Prop) -> Vec<Case> {
                 }
             }
             // documents assembled member by member
-            7 | 8 => { let j = rand_doc(&mut r); out.push(case_de(prop, &j, "de:assembled")); }
+            5 => { let j = rand_doc(&mut r); out.push(case_de(prop, &j, "de:assembled")); }
+            // one element, every VR in turn, "Value" items of the type the VR reads (boundaries of every integer kind)
             _ => {
-                let vr = *r.pick(&ALL_VRS);
-                let (k, e) = rand_member(&mut r, 2);
-                let e = match e { J::Obj(mut m) => { for kv in m.iter_mut() { if kv.0 == "vr" { kv.1 = J::Str(vr.to_string().to_string()); } } J::Obj(m) } x => x };
-                out.push(case_de(prop, &J::Obj(vec![(k, e)]), "de:one-element"));
+                let vr = ALL_VRS[vr_turn % ALL_VRS.len()];
+                vr_turn += 1;
+                let j = typed_element(&mut r, vr.to_string());
+                out.push(case_de(prop, &j, "de:typed-element"));
             }
         }
     }
